@@ -943,6 +943,13 @@ func (vc *VC) bindCallee(con *Contract, fn *ssa.Function, method *types.Func, ar
 
 func (vc *VC) applyContract(fr *Frame, st *State, con *Contract, fn *ssa.Function, method *types.Func, args []Term, recvType types.Type, pos token.Pos) []Term {
 	names, sig, pkg := vc.bindCallee(con, fn, method, args, recvType)
+	// `self` = the receiver of the function whose body performs this call (for ghost bookkeeping
+	// of "actions performed through object X")
+	if fr != nil && fr.fn.Signature.Recv() != nil && len(fr.fn.Params) > 0 {
+		if t, ok := fr.vals[fr.fn.Params[0]]; ok {
+			names["self"] = Bound{t, fr.fn.Params[0].Type()}
+		}
+	}
 	pre := st.clone()
 	mkEnv := func(cur, old *State) *Env {
 		e := &Env{vc: vc, fr: nil, st: cur, old: old, names: map[string]Bound{}, nq: new(int), pkg: pkg, con: con}
